@@ -2,6 +2,7 @@ package server
 
 import (
 	"bytes"
+	"errors"
 	"fmt"
 	"io"
 	"sort"
@@ -28,7 +29,9 @@ func vInstallRaftStandIn() {
 	vIntercept("(*github.com/hashicorp/raft-boltdb/v2.BoltStore).GetLog", func(b interface{}, idx uint64, out *raft.Log) error {
 		l, ok := vRaft.logs[idx]
 		if !ok {
-			return raft.ErrLogNotFound
+			// (raft.ErrLogNotFound itself is nil here: the package's
+			// initialiser is not run by the executor)
+			return errors.New("log not found")
 		}
 		*out = *l
 		return nil
@@ -97,13 +100,39 @@ func vCanon(s *Server) vMetaState {
 	}
 	for _, g := range s.metadata.GetConsumerGroups() {
 		coord, epoch := g.GetCoordinator()
+		// read the group's own state, not an accessor that is itself under test:
+		// subscriptions (member.streams) and current assignments per member
 		var ms []string
+		g.mu.RLock()
+		for id, m := range g.members {
+			var ss []string
+			for st := range m.streams {
+				ss = append(ss, st)
+			}
+			sort.Strings(ss)
+			var as []string
+			for st, parts := range m.assignments {
+				ps := append([]int32{}, parts...)
+				sort.Slice(ps, func(i, j int) bool { return ps[i] < ps[j] })
+				as = append(as, fmt.Sprintf("%s%v", st, ps))
+			}
+			sort.Strings(as)
+			ms = append(ms, id+":"+strings.Join(ss, "+")+"="+strings.Join(as, "+"))
+		}
+		g.mu.RUnlock()
+		sort.Strings(ms)
+		// the accessor the snapshot is built from must agree with that state
 		for id, streams := range g.GetMembers() {
 			ss := append([]string{}, streams...)
 			sort.Strings(ss)
-			ms = append(ms, id+":"+strings.Join(ss, "+"))
+			found := false
+			for _, m := range ms {
+				if strings.HasPrefix(m, id+":"+strings.Join(ss, "+")+"=") {
+					found = true
+				}
+			}
+			vAssert(found, "GetMembers reports every member with exactly the streams it subscribed to")
 		}
-		sort.Strings(ms)
 		out.groups = append(out.groups, fmt.Sprintf("%s coordinator=%s epoch=%d members=%s", g.GetID(), coord, epoch, strings.Join(ms, ",")))
 	}
 	sort.Strings(out.streams)
